@@ -166,7 +166,7 @@ Definition known_F1f : list row :=
     RType "section" "version" ].
 
 Definition fixed_F1d : bool := true.
-Definition fixed_F1e : bool := false.
+Definition fixed_F1e : bool := true.
 Definition fixed_F1f : bool := false.
 
 Definition known_F1 : list row := known_F1a ++ known_F1b ++ known_F1c ++ known_F1d ++ known_F1e ++ known_F1f.
